@@ -1,5 +1,6 @@
 import ErdosVerif.Driver.Util
 import ErdosVerif.Model.Strl
+import ErdosVerif.Model.StrlRef
 namespace ErdosVerif.Driver.Strl
 open Lean ErdosVerif.Driver ErdosVerif.Strl
 
@@ -16,6 +17,9 @@ node
   {"t":"scale","name":s,"f":z,"disregard":b,"ch":[c]}
 Reply
   {"err":cls} | {"err":null,"vars":[…],"cons":[…],"obj":{…},"results":[…]}
+  with "semopt":true in the request the reply carries "semopt": the brute-force optimum of
+  the tree under the reference semantics (Model/StrlRef.lean), null if even the empty
+  schedule is invalid.
 Variables are listed in the model's order; terms and assignments refer to
 positions in that list (-1 = constant term).
 -/
@@ -108,7 +112,11 @@ def handleE (j : Json) : Except String Json := do
       return Json.mkObj [("feasible", Json.bool (m.feasible σ)),
         ("objective_value", jInt (m.objective σ)),
         ("root", jSol (populate ctx σ tree))])
-    return Json.mkObj ([("err", Json.null)] ++ jModel m ++ [("results", Json.arr results.toArray)])
+    -- brute-force optimum under the reference semantics (only on request: exponential)
+    let semopt : List (String × Json) := match fldBool j "semopt" with
+      | .ok true => [("semopt", jOptInt (optUtility ctx tree))]
+      | _ => []
+    return Json.mkObj ([("err", Json.null)] ++ jModel m ++ [("results", Json.arr results.toArray)] ++ semopt)
 
 /-- Suite handler: one JSON case in, one JSON reply out. -/
 def handle (j : Json) : Json := guardE (handleE j)
